@@ -223,7 +223,7 @@ pub fn cases_for(prop: &str, tier: &str, seed: u64, shard: (usize, usize)) -> (V
                     doc: Some(doc.print()), extra: vec![all.clone()], note: String::new() });
             }
             // the targeted families of the rule properties (their spec-valid members count here)
-            for fp in ["C05", "C06", "C07", "C08", "C10", "C11", "GRAPH"] {
+            for fp in ["C04", "C05", "C06", "C07", "C08", "C09", "C10", "C11", "GRAPH"] {
                 for mut c in exhaustive_family(fp, tier, &mut rng, shard, &pool) {
                     if tier != "thorough" && !rng.pct(20) {
                         continue;
@@ -251,7 +251,7 @@ pub fn cases_for(prop: &str, tier: &str, seed: u64, shard: (usize, usize)) -> (V
             let mut tmp: Vec<Case> = vec![];
             family_random_docs(&mut tmp, &pool, &mut rng, n / 3, "validate", &format!("rnd{}x", shard.0), false);
             // the targeted families of the rule properties, all rules switched on
-            for fp in ["C05", "C06", "C07", "C08", "C10", "C11", "GRAPH"] {
+            for fp in ["C04", "C05", "C06", "C07", "C08", "C09", "C10", "C11", "GRAPH"] {
                 for mut c in exhaustive_family(fp, tier, &mut rng, shard, &pool) {
                     if tier != "thorough" && !rng.pct(20) {
                         continue;
@@ -850,6 +850,11 @@ pub fn exhaustive_family(prop: &str, tier: &str, rng: &mut Rng, shard: (usize, u
                 docs.push(("subscription-roots".to_string(), d.print()));
             }
         }
+        "C09" => {
+            for d in argument_slot_cases() {
+                docs.push(("argument-slots".to_string(), d.print()));
+            }
+        }
         "C11" => {
             for d in subscription_roots() {
                 docs.push(("subscription-roots".to_string(), d.print()));
@@ -911,6 +916,18 @@ pub fn exhaustive_family(prop: &str, tier: &str, rng: &mut Rng, shard: (usize, u
             let k = 5 + (j % 2);
             let doc = graphk_doc(rng, k).print();
             out.push(Case { id: format!("g{}{}x{}", k, shard.0, j), family: format!("fragment-graph-{}", k), schema: minimal, op: "validate".into(), doc: Some(doc), extra: vec![], note: String::new() });
+        }
+    }
+    if prop == "C04" {
+        let mut i = 0usize;
+        for (si_idx, si) in pool.iter().enumerate() {
+            for text in field_owner_cases(si, rng, budget(tier, 700, 20000)) {
+                i += 1;
+                if i % shard.1 != shard.0 {
+                    continue;
+                }
+                out.push(Case { id: format!("fo{}x{}", shard.0, i), family: "field-owner".into(), schema: si_idx, op: "validate".into(), doc: Some(text), extra: vec![], note: String::new() });
+            }
         }
     }
     if prop == "C06" {
